@@ -128,6 +128,9 @@ func (vc *VC) loopHeader(fr *frame, n *Node, phis []*ssa.Phi, entryVals map[*ssa
 	// 2. havoc
 	mods := vc.loopModSet(fr, l)
 	preSt := n.st.clone()
+	if fr == vc.top {
+		defer func() { n.st.mem[fmt.Sprintf("calledloop.%d", l.ordinal)] = "true" }()
+	}
 	if mods.allocates || mods.all {
 		wm := vc.decl("wm.h", "Int")
 		vc.assume(fmt.Sprintf("(>= %s %s)", wm, preSt.wm))
